@@ -242,7 +242,16 @@ def check_templates(report, lib: Lib):
     svc = m.cls("gapic.schema.wrappers.Service")
     cr = svc.members.get("common_resources")
     r3.need(cr is not None, "Service.common_resources")
-    pats = [c.value for n in ast.walk(cr.node) for c in ast.walk(n) if isinstance(c, ast.Constant) and isinstance(c.value, str) and "{" in c.value]
+    # the table may be hoisted into a module-level constant: follow module-level names the class attribute refers to
+    mod_ = svc.module
+    nodes_, seen_ = [cr.node], set()
+    for _ in range(3):
+        for n in list(nodes_):
+            for x in ast.walk(n):
+                if isinstance(x, ast.Name) and x.id in mod_.assigns and x.id not in seen_:
+                    seen_.add(x.id)
+                    nodes_.append(mod_.assigns[x.id])
+    pats = sorted({c.value for n in nodes_ for c in ast.walk(n) if isinstance(c, ast.Constant) and isinstance(c.value, str) and "{" in c.value})
     r3.need(len(pats) >= 5, "common resource patterns", f"found {len(pats)}")
     for pt in pats:
         r3.instance({"common pattern": pt})
